@@ -4,9 +4,16 @@ use crate::common::*;
 use rayon::prelude::*;
 use serde_json::{json, Value};
 
+pub mod c01;
 pub mod c02;
+pub mod c03;
+pub mod c04;
 pub mod c08;
+pub mod c09;
 pub mod c10;
+pub mod c12;
+pub mod c13;
+pub mod c16;
 pub mod c17;
 pub mod c19;
 
@@ -19,9 +26,16 @@ pub type Judge = fn(&Case, &mut Acc);
 
 fn in_judge(prop: &str) -> Option<Judge> {
     Some(match prop {
+        "C01" => c01::judge,
         "C02" => c02::judge,
+        "C03" => c03::judge,
+        "C04" => c04::judge,
         "C08" => c08::judge,
+        "C09" => c09::judge,
         "C10" => c10::judge,
+        "C12" => c12::judge,
+        "C13" => c13::judge,
+        "C16" => c16::judge,
         "C17" => c17::judge,
         "C19" => c19::judge,
         _ => return None,
@@ -30,9 +44,16 @@ fn in_judge(prop: &str) -> Option<Judge> {
 
 pub fn run(ctx: &Ctx) -> Report {
     match ctx.prop.as_str() {
+        "C01" => c01::run(ctx),
         "C02" => c02::run(ctx),
+        "C03" => c03::run(ctx),
+        "C04" => c04::run(ctx),
         "C08" => c08::run(ctx),
+        "C09" => c09::run(ctx),
         "C10" => c10::run(ctx),
+        "C12" => c12::run(ctx),
+        "C13" => c13::run(ctx),
+        "C16" => c16::run(ctx),
         "C17" => c17::run(ctx),
         "C19" => c19::run(ctx),
         other => {
